@@ -78,8 +78,20 @@ def main(rest, check):
             vio = [ln for ln in p.stdout.splitlines() if ln.startswith("VIOLATION ")]
             clause = [ln.strip() for ln in p.stdout.splitlines() if ln.strip().startswith("violation clause=")]
             caught = p.returncode == 1 and bool(vio)
+            by = pid
+            if not caught:
+                # a change may break another property as well (recorded in meta.json after analysis):
+                # which check reports it is part of the record
+                for other in meta.get("also_violates", []):
+                    p2 = subprocess.run([sys.executable, check, other, tier], env=env, capture_output=True, text=True, timeout=4 * 3600)
+                    vio2 = [ln for ln in p2.stdout.splitlines() if ln.startswith("VIOLATION ")]
+                    if p2.returncode == 1 and vio2:
+                        caught, by = True, other
+                        clause = [ln.strip() for ln in p2.stdout.splitlines() if ln.strip().startswith("violation clause=")]
+                        p = p2
+                        break
             rows.append((d, pid, caught))
-            print("seeded %-34s %-4s %s (exit %d, %s tier %.0fs, suite %s, demo %s) %s" % (d, pid, "CAUGHT" if caught else "MISSED", p.returncode, tier, dt, suite, demo, clause[0][:120] if clause else ""))
+            print("seeded %-34s %-4s %s (exit %d, %s tier %.0fs, suite %s, demo %s) %s" % (d, pid, ("CAUGHT" if by == pid else "CAUGHT-BY-" + by) if caught else "MISSED", p.returncode, tier, dt, suite, demo, clause[0][:120] if clause else ""))
             if not caught:
                 missed.append(d)
                 print(p.stdout[-800:])
